@@ -38,6 +38,9 @@ def rand_list(r, infos, allow_empty=True):
             items.append("")
         else:
             items.append(items[-1] if items else r.choice(names))
+    # blanks around elements ("a, b"): the list {a, b} in every front-end
+    items = [(" " + it if r.random() < 0.12 else it) for it in items]
+    items = [(it + " " if it and r.random() < 0.06 else it) for it in items]
     if r.random() < 0.1:
         items = [""] + items
     if r.random() < 0.1:
